@@ -343,6 +343,16 @@ func firstLine(s string) string {
 }
 
 func (r *Result) writeEvidence(all []*Obligation, rules []*RuleInfo, analysed map[string]int, excepts []string, discharged, nviol, nknown int) {
+	if r.Assume == nil {
+		r.Assume = []string{}
+	}
+	r.Assume = append(r.Assume, "the structural rules decide necessary conditions of the property, not the runtime values it quantifies over (see coverage.explanation for the undecided clauses)")
+	if r.SelfCheck == nil {
+		r.SelfCheck = []string{}
+	}
+	if r.Trusted == nil {
+		r.Trusted = []string{}
+	}
 	distinct := map[string]bool{}
 	for _, o := range all {
 		if !o.Trivial {
